@@ -304,6 +304,18 @@ def equivalence_rescue(pid: str, ex, lean_mods: list[str], top: list[str], workd
         return out
     by_lean = {lean_name(k).replace("Tucan.", "TucanBase.", 1): k for k in ex.targets}
     fn_keys = {by_lean[n] for n in lv["functions"] if n in by_lean}
+    # every function the cone needs, and everything it calls, must have been extracted: a function without Lean text has no equality
+    todo, closure_keys = list(fn_keys), set()
+    while todo:
+        k = todo.pop()
+        if k not in closure_keys:
+            closure_keys.add(k)
+            todo += [c for c, _ in ex.calls.get(k, [])]
+    not_extracted = sorted(f"{k[0]}.{k[1]}" for k in closure_keys if ex.metas.get(k) is None or ex.metas[k].error)
+    if not_extracted:
+        out["error"] = "functions in the cone could not be extracted: " + ", ".join(not_extracted[:5])
+        out["unproved"] = ["extract." + n for n in not_extracted]
+        return out
     text, names = baseline.equiv_module(ex, None, fn_keys)
     mod = "Probe.Equiv_" + pid
     os.makedirs(os.path.join(leanbuild.LEAN_SRC, "Probe"), exist_ok=True)
